@@ -83,6 +83,8 @@ def static_check(ctx, mode, total, extra="", select=None, oracle_relevant=None, 
             v = verdict_of(sp) if sp else "missing"
             if v.startswith("skipped"):
                 stats["skipped_large"] += 1
+            elif v == "missing":
+                stats["oracle_verdict_missing"] = stats.get("oracle_verdict_missing", 0) + 1
             else:
                 stats["judged"] += 1
             if has_dup(o0):
@@ -143,6 +145,12 @@ def static_check(ctx, mode, total, extra="", select=None, oracle_relevant=None, 
                                       c.text(), found_input=True, key="badsat")
             if canon_outcome(o0) != canon_outcome(mo):
                 corr = corr or (c, "outcome: impl `%s` model `%s`" % (o0[:120], mo[:120]))
+    if stats.get("oracle_verdict_missing", 0) and not ctx.violations:
+        ctx.violation("the brute-force oracle (driver spec) produced no verdict for %d of %d cases: the implementation-level judge is not running"
+                      % (stats["oracle_verdict_missing"], stats["cases"]), "driver spec: missing verdicts\n", found_input=False)
+    if stats["cases"] > 0 and stats["judged"] == 0 and not ctx.violations:
+        ctx.violation("no generated case was judged by the brute-force oracle (%d cases, %d skipped as too large)" % (stats["cases"], stats["skipped_large"]),
+                      "coverage floor\n", found_input=False)
     if corr and not ctx.violations and not getattr(ctx, "_searching", False):
         # the correspondence broke and the oracle is silent: search harder for a concrete failing
         # input (more cases, other seeds) before reporting no-failing-input-found
